@@ -16,7 +16,8 @@ index replaced by their value (`blugeSnapshotFormatVersion` → `1`, `crcWidth` 
 
 Where the model has a configuration switch (`Cfg`) the table takes the switch as an argument: the `false`
 table is the code as pinned, the `true` table the repaired code, and the obligation is stated for the value
-the extractor reads off the same source (`BlugeGen.C12.boundedReads`, `.uintLoop`, `.crcCopy`). -/
+the extractor reads off the same source (`BlugeGen.C12.boundedReads`, `.uintLoop`, `.crcCopy`,
+`.lengthChecked`). -/
 namespace Bluge.Codec.Script
 
 /-! ## encoder -/
@@ -101,13 +102,18 @@ def countHashWriterWrite : List String := [
 /-! ## decoder -/
 
 /-- `(*Snapshot).ReadFrom` — model: `readFromRd` -/
-def readFrom : List String := [
+def readFrom (lengthChecked : Bool) : List String := [
   "func Snapshot.ReadFrom(r io.Reader) (int64, error)",
   -- readFrom: the reader state starts as `{}` (empty 4096-byte buffer)
   "br = bufio.NewReader(r)",
-  -- readFromRd: `let (v, n0, r) ← peekUvarint inp false r` (false = io.EOF from Peek tolerated)
+  -- readFromRd: `let (v, n0, r) ← peekUvarintC cfg inp false r` (false = io.EOF from Peek tolerated)
   "peek, err = br.Peek(binary.MaxVarintLen64) ?eof-ok",
-  "snapshotFormatVersion, n = binary.Uvarint(peek)",
+  "snapshotFormatVersion, n = binary.Uvarint(peek)"] ++
+  -- peekUvarintC: `else if cfg.lengthChecked && n == 0 then error .eof` (n < 0 is an error either way)
+  (if lengthChecked then [
+  "if n <= 0 {",
+  "  return bytesRead, error",
+  "}"] else []) ++ [
   "sz, err = br.Discard(n) ?",
   "bytesRead += int64(sz)",
   -- readFromRd: `if v = 1 then … ok (ss, n0 + n1 + m, r)`
@@ -119,11 +125,15 @@ def readFrom : List String := [
   "return bytesRead, error"]
 
 /-- `readFromVersion1` — model: second `peekUvarint` of `readFromRd`, `loopCount`, `readSegments` -/
-def readFromVersion1 (uintLoop : Bool) : List String := [
+def readFromVersion1 (uintLoop lengthChecked : Bool) : List String := [
   "func Snapshot.readFromVersion1(br *bufio.Reader) (int64, error)",
-  -- readFromRd: `let (numSegments, n1, r) ← peekUvarint inp false r`
+  -- readFromRd: `let (numSegments, n1, r) ← peekUvarintC cfg inp false r`
   "peek, err = br.Peek(binary.MaxVarintLen64) ?eof-ok",
-  "numSegments, n = binary.Uvarint(peek)",
+  "numSegments, n = binary.Uvarint(peek)"] ++
+  (if lengthChecked then [
+  "if n <= 0 {",
+  "  return bytesRead, error",
+  "}"] else []) ++ [
   "sz, err = br.Discard(n) ?",
   "bytesRead += int64(sz)",
   -- loopCount cfg numSegments: uint64 counter (all of it) / `int(numSegments)` (nothing when ≥ 2^63)
@@ -136,7 +146,7 @@ def readFromVersion1 (uintLoop : Bool) : List String := [
   "return bytesRead, nil"]
 
 /-- `readSegmentSnapshot` — model: `readSegment` (`readDelBytes` for the deleted bytes) -/
-def readSegmentSnapshot (bounded : Bool) : List String := [
+def readSegmentSnapshot (bounded lengthChecked : Bool) : List String := [
   "func Snapshot.readSegmentSnapshot(br *bufio.Reader) (bytesRead int64, ss *segmentSnapshot, err error)",
   -- readSegment: `let (typ, n1, r) ← readVarLenString cfg inp lim r`
   "sz, segmentType, err = readVarLenString(br) ?",
@@ -147,16 +157,24 @@ def readSegmentSnapshot (bounded : Bool) : List String := [
   -- readSegment: `let ver := be32get vb` (big endian), `… + vb.length + …`
   "segmentVersion = binary.BigEndian.Uint32(verBuf)",
   "bytesRead += int64(sz)",
-  -- readSegment: `let (id, n3, r) ← peekUvarint inp false r`
+  -- readSegment: `let (id, n3, r) ← peekUvarintC cfg inp false r`
   "peekSegmentID, err = br.Peek(binary.MaxVarintLen64) ?eof-ok",
-  "segmentID, n = binary.Uvarint(peekSegmentID)",
+  "segmentID, n = binary.Uvarint(peekSegmentID)"] ++
+  (if lengthChecked then [
+  "if n <= 0 {",
+  "  return bytesRead, nil, error",
+  "}"] else []) ++ [
   "sz, err = br.Discard(n) ?",
   "bytesRead += int64(sz)",
   -- readSegment: `{ id := BitVec.ofNat 64 id, typ := typ, ver := ver, deleted := … }`
   "ss = &segmentSnapshot{id: segmentID, segmentType: segmentType, segmentVersion: segmentVersion}",
-  -- readSegment: `let (delLen, n4, r) ← peekUvarint inp false r`
+  -- readSegment: `let (delLen, n4, r) ← peekUvarintC cfg inp false r`
   "peek, err = br.Peek(binary.MaxVarintLen64) ?eof-ok",
-  "delLen, n = binary.Uvarint(peek)",
+  "delLen, n = binary.Uvarint(peek)"] ++
+  (if lengthChecked then [
+  "if n <= 0 {",
+  "  return bytesRead, nil, error",
+  "}"] else []) ++ [
   "sz, err = br.Discard(n) ?",
   "bytesRead += int64(sz)",
   -- readSegment: `if delLen > 0 then … else ok (… deleted := none …)`
@@ -180,11 +198,15 @@ def readSegmentSnapshot (bounded : Bool) : List String := [
   "return bytesRead, ss, nil"]
 
 /-- `readVarLenString` — model: `readVarLenString` (`peekUvarint inp (!cfg.boundedReads)`, `readStrBytes`) -/
-def readVarLenString (bounded : Bool) : List String := [
+def readVarLenString (bounded lengthChecked : Bool) : List String := [
   "func readVarLenString(r *bufio.Reader) (n int, str string, err error)",
-  -- peekUvarint with strict = !boundedReads: the pinned code treats io.EOF from Peek as an error here
+  -- peekUvarintC with strict = !boundedReads: the pinned code treats io.EOF from Peek as an error here
   (if bounded then "peek, err = r.Peek(binary.MaxVarintLen64) ?eof-ok" else "peek, err = r.Peek(binary.MaxVarintLen64) ?"),
-  "strLen, uVarRead = binary.Uvarint(peek)",
+  "strLen, uVarRead = binary.Uvarint(peek)"] ++
+  (if lengthChecked then [
+  "if uVarRead <= 0 {",
+  "  return n, \"\", error",
+  "}"] else []) ++ [
   "sz, err = r.Discard(uVarRead) ?",
   "n += sz"] ++
   -- readStrBytes: pinned `makeBytes .str lim n r` then ONE `read inp n r` (short reads keep the zero tail,
@@ -231,7 +253,7 @@ def countHashReaderRead : List String := [
 /-! ## loader -/
 
 /-- `(*Writer).loadSnapshot` — model: `loadSnapshot` (through the CRC comparison), `loadSegments` (the rest) -/
-def loadSnapshot (crcCopy : Bool) : List String := [
+def loadSnapshot (crcCopy lengthChecked : Bool) : List String := [
   "func Writer.loadSnapshot(epoch uint64) (*Snapshot, error)",
   "snapshot = &Snapshot{parent: s, epoch: epoch, refs: 1, creator: \"loadSnapshot\"}",
   "data, closer, err = s.directory.Load(ItemKindSnapshot, epoch) ?",
@@ -243,7 +265,16 @@ def loadSnapshot (crcCopy : Bool) : List String := [
   "  dataReader = crcReader",
   "}",
   -- loadSnapshot: `match readFrom ro cfg body with | error e => error e …`
-  "_, err = snapshot.ReadFrom(dataReader) ?[if closer != nil { _ = closer.Close() }]",
+  (if lengthChecked then "bytesRead, err = snapshot.ReadFrom(dataReader) ?[if closer != nil { _ = closer.Close() }]"
+   else "_, err = snapshot.ReadFrom(dataReader) ?[if closer != nil { _ = closer.Close() }]")] ++
+  -- loadSnapshot: `if cfg.lengthChecked && n != body.length then error .length` (body = all but the 4 CRC bytes)
+  (if lengthChecked then [
+  "if bytesRead != int64(data.Len() - 4) {",
+  "  if closer != nil {",
+  "    _ = closer.Close()",
+  "  }",
+  "  return nil, error",
+  "}"] else []) ++ [
   "if crcReader != nil {",
   -- loadSnapshot: `let computed := be32 (crc32 (body.take r.pos))`
   "  computedCRCBytes = make([]byte, 4)",
@@ -265,10 +296,19 @@ def loadSnapshot (crcCopy : Bool) : List String := [
   "if closer != nil {",
   "  err = closer.Close() ?",
   "}",
+  -- (not in the codec model: on a failure below, the segments loaded so far are released — handles are C04/C11's)
+  "closeLoaded = func() {",
+  "  for _, loaded = range snapshot.segment {",
+  "    if loaded.segment != nil {",
+  "      _ = loaded.segment.Close()",
+  "    }",
+  "  }",
+  "}",
   -- loadSegments: plugin first (`error .plugin`), then the segment file (`error .segment`), in snapshot order
   "for _, segSnapshot = range snapshot.segment {",
-  "  segPlugin, err = loadSegmentPlugin(s.config.supportedSegmentPlugins, segSnapshot.segmentType, segSnapshot.segmentVersion) ?",
-  "  segSnapshot.segment, err = s.loadSegment(segSnapshot.id, segPlugin) ?",
+  "  segPlugin, err = loadSegmentPlugin(s.config.supportedSegmentPlugins, segSnapshot.segmentType, segSnapshot.segmentVersion) ?[closeLoaded()]",
+  "  seg, err = s.loadSegment(segSnapshot.id, segPlugin) ?[closeLoaded()]",
+  "  segSnapshot.segment = seg",
   "  snapshot.offsets = append(snapshot.offsets, running)",
   "  running += segSnapshot.segment.Count()",
   "}",
